@@ -6,6 +6,117 @@ from props import common as cm
 def run(tier):
     r = Run('C14', tier, level='other')
     cm.run_kernels(r, cm.kernels('c_var2h'))
+    from vf import child
+    res = child.run('props.C14', 'monitors_child', r.prop, r.tier, r.seed)
+    child.merge(r, res['recorder'])
+    if res['rc'] != 0:
+        r.broken.append('C14 monitors child failed (rc=%s) at %s: %s' % (res['rc'], res['progress'], res['stderr'][-1500:]))
     r.explanation = ('proved (Engine C): memory safety, no integer overflow and termination of c_var2h for every series; '
                      'bounded: each value is missing or the exact period average (exact rational oracle on enumerated series), pandas wrapper')
     return r.finish()
+
+
+# ------------------------------------------------------------------------------------------------ python-level bounded monitor
+def _fail(rec, name, what, **w):
+    rec.violation(dict(function=name, kind='monitor', clause=what.split(':')[0][:80]), 'bounded monitor %s: %s' % (name, what), witness=dict(python=True, source='bounded monitor', **w))
+
+
+def oracle(secs, vals, hstart, P, nper, rainfall, maxgap):
+    """exact period averages of the piecewise-linear interpolant (rainfall: totals of the increments spread uniformly), None = missing,
+    'free' = not constrained by the property (final period, periods reaching beyond the data)"""
+    from fractions import Fraction as Fr
+    out = []
+    for i in range(nper):
+        a = hstart + i * P; b = a + P
+        if i == nper - 1 or b > secs[-1] or a < secs[0]:
+            out.append('free'); continue
+        tot = Fr(0); miss = False; free = False
+        for k in range(len(secs) - 1):
+            t1, t2 = secs[k], secs[k + 1]
+            lo, hi = max(t1, a), min(t2, b)
+            if hi <= lo:
+                # an invalid interval that merely touches the period (or has no length) leaves it unconstrained (quantifier of C14)
+                v1, v2 = vals[k], vals[k + 1]
+                if hi == lo and (v1 is None or v2 is None or v1 < 0 or v2 < 0 or t2 - t1 > maxgap):
+                    free = True
+                continue
+            v1, v2 = vals[k], vals[k + 1]
+            if v1 is None or v2 is None or v1 < 0 or v2 < 0 or t2 - t1 > maxgap:
+                miss = True; break
+            if rainfall:
+                tot += v2 * Fr(hi - lo, t2 - t1)
+            else:
+                s = (v2 - v1) / Fr(t2 - t1)
+                tot += (2 * v1 + s * (lo - t1) + s * (hi - t1)) * Fr(hi - lo) / 2
+        out.append('free' if (free and not miss) else None if miss else (tot if rainfall else tot / P))
+    return out
+
+
+def monitors_child(rec):
+    from fractions import Fraction as Fr
+    import random, warnings
+    import numpy as np
+    from props import apidrive
+    from vf import child
+    apidrive.setup()
+    import pandas as pd
+    from hydrodiy.data import dutils as D
+    warnings.simplefilter('ignore')
+    rng = random.Random(rec.seed + 14)
+    quick = rec.tier == 'quick'
+    ev = 0; bad = 0
+    tzs = [None, 'UTC']
+    for cand in ('Australia/Sydney', 'Etc/GMT-10'):
+        try:
+            pd.Timestamp('2001-01-01', tz=cand); tzs.append(cand)
+        except Exception:
+            pass
+    t0 = pd.Timestamp('2001-03-04 05:00:00')
+    for it in range(120 if quick else 1500):
+        child.progress('var2h series %d' % it)
+        n = rng.choice([2, 3, 5, 9, 20])
+        P = rng.choice([3600, 1800]); rain = rng.random() < 0.4; maxgap = rng.choice([3600, 7200, 5 * 86400])
+        steps = [rng.choice([1, 60, 600, 1800, 3600, 3601, 5000, 0, 7200, 9000]) for _ in range(n - 1)]
+        off = rng.choice([0, 1, 59, 1800, 3599])
+        rel = [off]
+        for s in steps:
+            rel.append(rel[-1] + s)
+        if rel[-1] - rel[0] < 2 * P:
+            rel[-1] = rel[0] + 2 * P + rng.choice([0, 7, 1800])
+        vals = [rng.choice([Fr(0), Fr(1), Fr(5, 2), Fr(7), Fr(1, 8), Fr(-1), None, Fr(3)]) for _ in range(n)]
+        fv = [float('nan') if v is None else float(v) for v in vals]
+        base = pd.DatetimeIndex([t0 + pd.Timedelta(seconds=r) for r in rel])
+        ref = None; refdesc = None
+        for unit in ('ns', 'us', 'ms', 's'):
+            for tz in tzs:
+                idx = base.as_unit(unit)
+                if tz is not None:
+                    idx = idx.tz_localize(tz)
+                se = pd.Series(fv, index=idx)
+                try:
+                    out = D.var2h(se, P, maxgap, rain); ev += 1
+                except Exception as e:
+                    bad += 1; _fail(rec, 'var2h', 'raises: %s %s for unit %s tz %s' % (type(e).__name__, str(e)[:100], unit, tz), seconds=rel, values=[repr(v) for v in fv], period=P, rainfall=rain, maxgapsec=maxgap); break
+                res = out.values
+                if ref is None:
+                    ref = res; refdesc = (unit, tz)
+                    # against the exact oracle (wall-clock seconds of the naive index)
+                    epoch = [int((t0 - pd.Timestamp('1970-01-01')).total_seconds()) + r for r in rel]
+                    hstart = (epoch[0] // 3600 + 1) * 3600
+                    exp = oracle(epoch, vals, hstart, P, len(res), rain, maxgap)
+                    for i, (g, e) in enumerate(zip(res, exp)):
+                        if e == 'free':
+                            continue
+                        if (e is None) != bool(np.isnan(g)) or (e is not None and abs(g - float(e)) > 1e-9 * max(1.0, abs(float(e)))):
+                            bad += 1; _fail(rec, 'var2h', 'average: period %d is %r, expected %s' % (i, g, 'missing' if e is None else float(e)), seconds=rel, values=[repr(v) for v in fv], period=P, rainfall=rain, maxgapsec=maxgap, unit=unit, tz=tz)
+                            break
+                elif not (len(res) == len(ref) and np.array_equal(res, ref, equal_nan=True)):
+                    bad += 1; _fail(rec, 'var2h', 'index-independence: result with unit %s / tz %s differs from unit %s / tz %s (%d vs %d non-missing values)' % (unit, tz, refdesc[0], refdesc[1], int(np.sum(~np.isnan(res))), int(np.sum(~np.isnan(ref)))),
+                                    seconds=rel, values=[repr(v) for v in fv], period=P, rainfall=rain, maxgapsec=maxgap)
+                    break
+            else:
+                continue
+            break
+    rec.bounded_clause('var2h (python wrapper): every value missing or the exact period average / total (rational oracle), result independent of the storage unit (ns, us, ms, s) and of the time zone of the index',
+                       '%d irregular series of 2..20 observations (steps 0 s .. 2.5 h, values incl. negative and NaN) x periods 1800 / 3600 x rainfall flag x 3 maxgapsec x 4 units x %d time zones' % (120 if quick else 1500, len(tzs)),
+                       ev, ev, False, bad)
